@@ -49,7 +49,9 @@ ErrnoPool == {<<"ENOENT", "L_errno_ENOENT">>, <<"EACCES", "L_osErrPermission">>,
               <<"EEXIST", "L_errno_EEXIST">>, <<"EINTR", "L_errno_EINTR">>}
 KeyPool == {<< <<PW(1)>> >>, << <<PW(2)>>, <<PW(1)>> >>}
 LinkPool == {<< <<PW(1)>>, <<PW(2)>> >>, << <<>>, <<PW(1)>> >>, << <<PW(2)>>, <<>> >>, << <<>>, <<>> >>}
-TagPool == {<< <<PW(1)>>, <<PW(2)>> >>, << <<PW(2)>>, <<PW(1)>>, <<PW(1)>>, <<PW(3)>> >>}
+\* tag values: strings, a value-less tag (NILV), a value marked safe (SAFEV), an integer
+TagPool == {<< <<PW(1)>>, <<PW(2)>> >>, << <<PW(2)>>, <<PW(1)>>, <<PW(1)>>, <<PW(3)>> >>,
+            << <<PW(1)>>, <<"NILV">>, <<PW(2)>>, <<"SAFEV", PW(3)>> >>, << <<PW(3)>>, <<"n5">> >>}
 CodePool == {<< <<"n404">> >>, << <<"n5">> >>}
 ULeafKinds == {"uPtrLeaf", "uValLeaf", "uRegLeaf", "uMaybe"}
 UWrapKinds == {"uWrapU", "uWrapC", "uWrapUC", "uWrapFull", "uAnnotWrap", "uMaybe"}
@@ -101,6 +103,14 @@ Step1(sl) ==
   \/ \E o \in {"Newf", "AssertionFailedf"} \cap Ops : \E d \in FirstFree(sl) : \E p \in PartsPool(sl) :
         Take(Step(o, d, E, E, E, p, 0, E))
   \/ On("NewfW") /\ \E d \in FirstFree(sl) : \E p \in WPartsPool(sl) : Take(Step("Newf", d, E, E, E, p, 0, E))
+  \* one %w operand plus another error operand (the result replaces the latter)
+  \/ On("NewfW") /\ \E p \in Pairs(sl) : \E s \in SH2 :
+        Take(Step("Newf", p[2], E, E, E,
+                  <<Part("lit", s, 0), Part("lit", <<SEP>>, 0), Part("w", E, p[1]), Part("lit", <<SP>>, 0),
+                    Part("err", E, p[2])>>, 0, E))
+  \* unregistered leaf whose SafeDetails() returns a caller-supplied string
+  \/ On("USafeDet") /\ \E d \in FirstFree(sl) : \E s \in SH : \E t \in SH2 :
+        Take(Step("ULeaf", d, E, s, <<<<"uSafeDetLeaf">>, t>>, E, 0, E))
   \/ On("ULeaf") /\ \E d \in FirstFree(sl) : \E s \in SH : \E k \in ULeafKinds :
         Take(Step("ULeaf", d, E, s, <<<<k>>>>, E, 0, E))
   \* leaves with their own Is method: value-comparing (says it is any error whose
